@@ -403,6 +403,15 @@ def pred_c10(T, inp):
         have = {k: g.nodes[i][k] for k in (ga.MASS, ga.RAD) if k in g.nodes[i]}
         if exp != have:
             return f"{s[:80]!r}: attributes of atom {i + 1} are {have}, listed {exp}"
+    # the result must denote the string again after the caller has modified an earlier result
+    if len(atoms) >= 1:
+        snapshot = (sorted(g.nodes), sorted(tuple(sorted(e)) for e in g.edges), {i: dict(g.nodes[i]) for i in g.nodes})
+        g.nodes[0][ga.MASS] = 999
+        g.remove_node(max(g.nodes))
+        g2 = T.parse(s)
+        now = (sorted(g2.nodes), sorted(tuple(sorted(e)) for e in g2.edges), {i: dict(g2.nodes[i]) for i in g2.nodes})
+        if now != snapshot:
+            return f"{s[:80]!r}: a second parse after the caller modified the first result returns a different graph"
 
 
 def norm(T, s):
@@ -918,8 +927,17 @@ def gen_c07(T, tier, seed, budget, out: Outcome):
         if time.time() - t0 > budget or len(out.violations) >= 3:
             return
         m = molgen.rand_mol(rnd, 5)
-        text = molgen.render_v3000(rnd, m, crlf=rnd.random() < .15)
-        out.run(T, "c07", {"mol": {"atoms": m.atoms, "bonds": [list(b) for b in m.bonds]}, "text": text}, text)
+        star = None
+        if len(m.atoms) >= 3 and rnd.random() < .25:
+            anchor = rnd.randrange(len(m.atoms))
+            bonded = {frozenset((i, j)) for i, j, _ in m.bonds}
+            cands = [e for e in range(len(m.atoms)) if e != anchor and frozenset((anchor, e)) not in bonded]
+            if cands:
+                ends = rnd.sample(cands, rnd.randint(1, len(cands)))
+                star = (anchor, ends, rnd.randint(1, 3))
+        text = molgen.render_v3000(rnd, m, crlf=rnd.random() < .15, star=star)
+        mol_bonds = [list(b) for b in m.bonds] + ([[star[0], e, star[2]] for e in star[1]] if star else [])
+        out.run(T, "c07", {"mol": {"atoms": m.atoms, "bonds": mol_bonds}, "text": text}, text)
 
 
 def gen_c08(T, tier, seed, budget, out: Outcome):
@@ -1111,6 +1129,11 @@ def gen_c05(T, tier, seed, budget, out: Outcome):
         m4.bonds.append((i, i, 1))
         text4 = molgen.render_v3000(rnd, m4, cuts=False)
         out.run(T, "c05_text", {"molfile": text4}, text4)
+        m5 = molgen.rand_mol(rnd, 4, zero_values=False)
+        anchor = rnd.randrange(len(m5.atoms))
+        ends = sorted(set([anchor] + [rnd.randrange(len(m5.atoms)) for _ in range(2)]))
+        text5 = molgen.render_v3000(rnd, m5, cuts=False, star=(anchor, ends, 1))
+        out.run(T, "c05_text", {"molfile": text5}, text5)
 
 
 def gen_c15(T, tier, seed, budget, out: Outcome):
